@@ -1,0 +1,31 @@
+//! Read-only wrappers around crate-private items, compiled only with `--features verif_hooks`.
+//! Nothing here changes behaviour; it only makes private wire indices and evaluators reachable
+//! from the out-of-tree verification harness.
+use crate::field::extension::Extendable;
+use crate::gates::base_sum::BaseSumGate;
+use crate::gates::exponentiation::ExponentiationGate;
+use crate::gates::poseidon::PoseidonGate;
+use crate::gates::random_access::RandomAccessGate;
+use crate::hash::hash_types::RichField;
+
+pub fn base_sum_wire_sum<const B: usize>() -> usize {
+    BaseSumGate::<B>::WIRE_SUM
+}
+
+pub fn exponentiation_wire_power_bit<F: RichField + Extendable<D>, const D: usize>(
+    gate: &ExponentiationGate<F, D>,
+    i: usize,
+) -> usize {
+    gate.wire_power_bit(i)
+}
+
+pub fn random_access_wire_access_index<F: RichField + Extendable<D>, const D: usize>(
+    gate: &RandomAccessGate<F, D>,
+    copy: usize,
+) -> usize {
+    gate.wire_access_index(copy)
+}
+
+pub fn poseidon_wire_swap<F: RichField + Extendable<D>, const D: usize>() -> usize {
+    PoseidonGate::<F, D>::WIRE_SWAP
+}
